@@ -1,6 +1,7 @@
 package inputx
 
 import (
+	"reflect"
 	"encoding/json"
 	"fmt"
 	"sort"
@@ -348,6 +349,55 @@ func (j *C20Job) cases() []c20Case {
 				out[sv.name+":checked"] = true
 			}})
 		}
+	case "schedules-together":
+		// the data of one schedule never leaks into the promises of another, and a
+		// schedule re-created under its id uses its own template: two schedules fire in ONE
+		// sweep; then the first is deleted, re-created with other data and fires again
+		cs = append(cs, c20Case{"schedules-together", "two schedules with different promise tags / parameters / id templates firing in one sweep, then delete + re-create", func(k *Kernel, viol func(string, string, ...any), out map[string]bool) {
+			mk := func(id, tmpl, tag, data string) *t_api.Request {
+				return &t_api.Request{Kind: t_api.CreateSchedule, CreateSchedule: &t_api.CreateScheduleRequest{Id: id, Cron: "* * * * *", PromiseId: tmpl, PromiseTimeout: 1000,
+					PromiseParam: promise.Value{Headers: map[string]string{"h": data}, Data: []byte(data)}, PromiseTags: map[string]string{"own": tag, tag: "1"}}}
+			}
+			check := func(w *world.World, phase, sid, wantPid, tag, data string) {
+				d := w.Dump()
+				p, ok := d.Promises[wantPid]
+				if !ok {
+					have := []string{}
+					for pid := range d.Promises {
+						have = append(have, pid)
+					}
+					sort.Strings(have)
+					viol("C20:schedules-together:"+phase+":promise-id", "%s: schedule %q should have fired promise %q from its own template; promises: %q", phase, sid, wantPid, have)
+					return
+				}
+				tags := map[string]string{}
+				_ = json.Unmarshal([]byte(p.Tags), &tags)
+				want := map[string]string{"own": tag, tag: "1", "resonate:schedule": sid, "resonate:invocation": "true"}
+				if !reflect.DeepEqual(tags, want) {
+					viol("C20:schedules-together:"+phase+":promise-tags", "%s: promise %q of schedule %q carries tags %v, the schedule says %v", phase, wantPid, sid, tags, want)
+				}
+				if p.ParamData != data {
+					viol("C20:schedules-together:"+phase+":promise-param", "%s: promise %q of schedule %q carries parameter %q, the schedule says %q", phase, wantPid, sid, p.ParamData, data)
+				}
+			}
+			j.send(k, mk("sa", "a-{{.id}}-{{.timestamp}}", "ta", "da"))
+			j.send(k, mk("sb", "b/{{.timestamp}}/{{.id}}", "tb", "db"))
+			k.Do(func(w *world.World) {
+				w.SetClock(61_000)
+				w.Sweep("SchedulePromises")
+				check(w, "one-sweep", "sa", "a-sa-60000", "ta", "da")
+				check(w, "one-sweep", "sb", "b/60000/sb", "tb", "db")
+			})
+			j.send(k, &t_api.Request{Kind: t_api.DeleteSchedule, DeleteSchedule: &t_api.DeleteScheduleRequest{Id: "sa"}})
+			j.send(k, mk("sa", "again.{{.timestamp}}.{{.id}}", "tc", "dc"))
+			k.Do(func(w *world.World) {
+				w.SetClock(121_000)
+				w.Sweep("SchedulePromises")
+				check(w, "re-created", "sa", "again.120000.sa", "tc", "dc")
+				check(w, "re-created", "sb", "b/120000/sb", "tb", "db")
+			})
+			out["checked"] = true
+		}})
 	case "schedule-fields":
 		for _, sv := range stringMenu(j.Tier) {
 			sv := sv
@@ -506,7 +556,7 @@ func init() {
 			Jobs: func(tier string) []runner.Job {
 				var jobs []runner.Job
 				for _, w := range []string{"http", "grpc"} {
-					for _, g := range []string{"promise-id", "promise-fields", "completion", "derived-ids", "schedule-fields", "receivers", "locks-and-tasks"} {
+					for _, g := range []string{"promise-id", "promise-fields", "completion", "derived-ids", "schedules-together", "schedule-fields", "receivers", "locks-and-tasks"} {
 						jobs = append(jobs, &C20Job{Writer: w, Group: g, Tier: tier})
 					}
 				}
